@@ -33,6 +33,12 @@ CHECKS = {
  "C20": ("exploration", "exhaustive sweep + sync orders", "exhaustive sweep of status x modification-time values through the real Replica::expire_tasks on both storages, then every sync order of an expiring replica against concurrently editing replicas",
          "All 8 status values x 20 modification-time values (boundaries of the 180-day threshold, missing, non-numeric, out of range in both directions, i64 extremes), alone and together, on in-memory and SQLite; then every expirable task x 4 concurrent edits x 2-3 replicas x every sync order; the purged task must be gone everywhere and nothing else touched.",
          "boundary values are >= 2 s (old side) / 60 s (new side) away from the threshold because the clock is real", "5/C20"),
+ "C09": ("model_checking", "E-SCHED", "controlled scheduler over real CloudServer clients on one in-memory object store; every get/put/del/compare-and-swap and every list page is a scheduling point; stateless DFS with iterative preemption bounding; replay-divergence check on every prefix",
+         "2-4 clients run add/add-two/walk/add+snapshot programs against the real CloudServer; pairs are explored over all interleavings (quick: bound 3 for the long ones), triples and quadruples within a preemption bound; start layouts include leftover loser objects. The oracle uses only call results, the sequence of values 'latest' took and object names.",
+         "in-memory Service obeys the Service trait contract; page sizes 1 and 2; cleanup disabled here (C10)", "5/C09"),
+ "C10": ("model_checking", "E-SCHED + truncation", "controlled scheduler over cleanup vs add_version/add_snapshot/cleanup parties on every small object-store layout, preemption bound 2 (thorough 3), plus stopping the cleanup before any of its deletions",
+         "Every chain length 0..3(4) x snapshot subset x age pattern x orphan kind is the start layout; the cleanup is entered through the real add_version->maybe_cleanup path (draw forced by hook) or explicitly; all interleavings within the bound at request/list-page granularity; consequence-form oracle evaluated by a fresh client.",
+         "deletion order of redundant snapshots is fixed to sorted order by a hook (hash-set order cannot be enumerated); version ids are counter-based under the hook", "5/C10"),
  "C12": ("model_checking", "E-STATE", "explicit-state search with snapshot urgency and avoid_snapshots as enumerated environment answers; independent snapshot decoder + chain-replay model; fresh replica from snapshot on every state",
          "Every history (incl. multi-version syncs and odd Unicode strings) x every urgency answer; each uploaded snapshot is decoded independently and compared with the chain replay at exactly its version; on every state a new replica is started from the latest snapshot against a server that discarded the earlier versions.",
          "snapshot => urgency>=threshold is asserted (the statement's 'only when'); the converse is counted, not asserted; one 2000-task (thorough 20000) scenario stands for 'thousands of tasks'", "5/C12"),
@@ -72,7 +78,7 @@ m = {
   },
   "engines": [
     {"name": "E-STATE", "path": "harness/src/explore/state.rs", "serves_properties": ["C01","C03","C05","C07","C12","C14","C15","C19"], "kind_free_text": "explicit-state depth-bounded DFS with iterative deepening over real objects, canonical-key dedup, rayon-parallel"},
-    {"name": "E-SCHED", "path": "harness/src/explore/sched.rs", "serves_properties": ["C02"], "kind_free_text": "controlled scheduler over real futures: one runnable task at a time, stateless DFS over choice prefixes with iterative deviation (preemption/fault) bounding"},
+    {"name": "E-SCHED", "path": "harness/src/explore/sched.rs", "serves_properties": ["C02","C09","C10"], "kind_free_text": "controlled scheduler over real futures: one runnable task at a time, stateless DFS over choice prefixes with iterative deviation (preemption/fault) bounding"},
   ],
   "checks": checks,
   "notes": "All checks: exit 0 = held on everything explored (KNOWN-FINDING lines allowed), exit 1 + VIOLATION line, exit >=2 machinery failure. Known findings: /verif/known_findings.json.",
